@@ -96,6 +96,9 @@ def run(tier):
         plans.append(stream.Plan("payload+markers+tabs2", [h], ["--keep-plus-minus-markers", "--tabs", "2"],
                                  {"keep": True, "tabs": 2}, fn))
         plans.append(stream.Plan("payload+tabs0+numbers", [h], ["--tabs", "0", "--line-numbers"], {"tabs": 0}, fn))
+        # the emulation presets keep the unified view (and the default tab width)
+        plans.append(stream.Plan("payload+diff-so-fancy", [h], ["--diff-so-fancy"], None, fn))
+        plans.append(stream.Plan("payload+diff-highlight+markers", [h], ["--diff-highlight", "--keep-plus-minus-markers"], {"keep": True}, fn))
     plans.append(stream.Plan("rs/lookalike", [h for _, h in lookalikes]))
     res = stream.execute_plans(plans)
     failed, n = stream.validate_runs([x[4] for x in res])
